@@ -258,6 +258,20 @@ def run(shard, seed):
                         break
                 if res.violations:
                     break
+        # the documented parameters passed by keyword (f(x=a, y=b), f(a, y=b), f(y=b, x=a)) on vectors of
+        # the domain, zero-containing ones included: the same, finite, value as the positional call
+        if not res.violations:
+            kws = [(0.5, 0.5, 0.0, 0.0), (0.25, 0.0, 0.75, 0.0), (0.1, 0.2, 0.3, 0.4), (1.0, 0.0, 0.0, 0.0)]
+            for xi in kws:
+                for yi in kws:
+                    v = kw_call(fn, name, cl, xi, yi)
+                    res.transitions += 4
+                    res.nontrivial += 1
+                    if v:
+                        res.violations.append(v)
+                        break
+                if res.violations:
+                    break
         res.outcome((name, "mixed"))
         res.sample({"metric": name, "mode": "mixed", "x_int": list(ints[0]), "y_float": list(flts[0])}, 1)
         res.evaluations = res.transitions
@@ -306,6 +320,24 @@ def run(shard, seed):
     return res
 
 
+def kw_call(fn, name, cl, xi, yi):
+    a, b = np.array(xi, dtype=float), np.array(yi, dtype=float)
+    out = []
+    for call in (lambda: fn(a.copy(), b.copy()), lambda: fn(x=a.copy(), y=b.copy()),
+                 lambda: fn(a.copy(), y=b.copy()), lambda: fn(y=b.copy(), x=a.copy())):
+        try:
+            out.append(repr(float(call())))
+        except Exception as ex:
+            out.append("raised %s" % type(ex).__name__)
+    if len(set(out)) == 1:
+        return None
+    v = make_violation(name, cl, [list(xi), list(yi)], "finite", 0, 1, None,
+                       "f(x, y), f(x=x, y=y), f(x, y=y), f(y=y, x=x) give %s" % out)
+    v["program"]["kwcall"] = True
+    v["fingerprint"] = "metric %s: keyword call differs from positional call" % name
+    return v
+
+
 def int_vs_float(fn, name, cl, xi, yi, dt):
     a, b = np.array(xi, dtype=np.dtype(dt)), np.array(yi, dtype=np.dtype(dt))
     try:
@@ -331,6 +363,8 @@ def replay(case):
     import opfython.math.distance as D
     p = case["program"]
     name, cl, axiom = p["metric"], p["class"], p["axiom"]
+    if p.get("kwcall"):
+        return kw_call(D.DISTANCES[name], name, cl, p["x"], p["y"])
     if p.get("int_vs_float"):
         return int_vs_float(D.DISTANCES[name], name, cl, p["x"], p["y"], p["int_vs_float"])
     if p.get("negzero"):
